@@ -539,7 +539,7 @@ sexp sexp_finalize (sexp ctx) {
 
 static int verif_inited = 0, verif_audit_on = 0, verif_in_gc = 0, verif_dump_all = 0;
 static FILE *verif_trace = NULL;
-static unsigned long verif_alloc_no = 0, verif_gc_every = 0, verif_gc_seed = 0, verif_gc_prob = 0;
+static unsigned long verif_alloc_no = 0, verif_gc_every = 0, verif_gc_seed = 0, verif_gc_prob = 0, verif_gc_start = 0;
 static unsigned long verif_gc_at[64]; static int verif_gc_nat = 0;
 static unsigned long verif_dump_at[64]; static int verif_dump_nat = 0;
 unsigned long sexp_verif_audit_failures = 0, sexp_verif_forced_gcs = 0;
@@ -560,6 +560,7 @@ static void verif_init (void) {
     }
   }
   if ((s = getenv("CHIBI_VERIF_GC_EARLY"))) verif_gc_early = atoi(s);
+  if ((s = getenv("CHIBI_VERIF_GC_START"))) verif_gc_start = strtoul(s, NULL, 10);  /* no forced collection before this allocation number */
   if ((s = getenv("CHIBI_VERIF_AUDIT"))) verif_audit_on = atoi(s);
   if ((s = getenv("CHIBI_VERIF_TRACE")) && *s) verif_trace = fopen(s, "w");
   if ((s = getenv("CHIBI_VERIF_DUMP"))) {
@@ -574,7 +575,7 @@ static int verif_gc_due (void) {
   if (!verif_inited) verif_init();
   if (!verif_gc_early && !sexp_verif_env_loaded) return 0;   /* allocations are numbered from the start of the schedule */
   ++verif_alloc_no;
-  if (verif_in_gc) return 0;
+  if (verif_in_gc || verif_alloc_no < verif_gc_start) return 0;
   if (verif_gc_every) return (verif_alloc_no % verif_gc_every) == 0;
   for (i = 0; i < verif_gc_nat; i++) if (verif_gc_at[i] == verif_alloc_no) return 1;
   if (verif_gc_seed) {
